@@ -11,6 +11,7 @@ import (
 	"path/filepath"
 	"strings"
 	"sync"
+	"syscall"
 	"time"
 )
 
@@ -213,8 +214,15 @@ func runQuery(body string, getValues []string, timeoutS int) SolverResult {
 		}
 		os.WriteFile(file, []byte(content), 0o644)
 		defer os.Remove(file)
-		a := s.args(file, timeoutS)
-		cmd := exec.CommandContext(ctx, a[0], a[1:]...)
+		// The budget is CPU time (RLIMIT_CPU through `ulimit -t`), so that a verdict does not
+		// depend on how busy the machine is; the solver's own wall-clock limit is only a
+		// backstop (8x the budget, at least 60 s).
+		wall := timeoutS * 8
+		if wall < 60 {
+			wall = 60
+		}
+		a := s.args(file, wall)
+		cmd := exec.CommandContext(ctx, "sh", append([]string{"-c", fmt.Sprintf(`ulimit -t %d; exec "$0" "$@"`, timeoutS)}, a...)...)
 		var out bytes.Buffer
 		cmd.Stdout = &out
 		cmd.Stderr = &out
@@ -239,6 +247,9 @@ func runQuery(body string, getValues []string, timeoutS int) SolverResult {
 		default:
 			if ctx.Err() != nil {
 				r.Status = "cancelled"
+			} else if ws, ok := sysStatus(cmd); ok && ws.Signaled() {
+				// killed by the CPU-time limit
+				r.Status = "timeout"
 			} else if strings.Contains(raw, "timeout") || strings.Contains(raw, "interrupted") {
 				r.Status = "timeout"
 			} else {
@@ -267,4 +278,12 @@ func runQuery(body string, getValues []string, timeoutS int) SolverResult {
 	}
 	r, _ := stage(solvers)
 	return r
+}
+
+func sysStatus(cmd *exec.Cmd) (syscall.WaitStatus, bool) {
+	if cmd.ProcessState == nil {
+		return 0, false
+	}
+	ws, ok := cmd.ProcessState.Sys().(syscall.WaitStatus)
+	return ws, ok
 }
